@@ -9,7 +9,7 @@ n = int(sys.argv[2]) if len(sys.argv) > 2 else 1500
 seed = int(sys.argv[3]) if len(sys.argv) > 3 else 0
 tier = sys.argv[4] if len(sys.argv) > 4 else 'quick'
 mod = importlib.import_module('vlib.props.' + prop.lower())
-res = mod.run_shard({'shard': 0, 'n': n}, tier, seed)
+res = mod.run_shard({'shard': 0, 'n': n, 'nshards': 16}, tier, seed)
 findings = H.load_findings()
 by = collections.defaultdict(list)
 for w in res.witnesses:
